@@ -17,6 +17,7 @@
   followed by the counterexample that forces its guard.
 -/
 import HL.Lemmas.Ranges
+import HL.Lemmas.Completion
 namespace HL.Props.C08
 open HL HL.Ast HL.Text HL.Ranges HL.RangeSpec HL.Lemmas.Ranges HL.Lemmas.Text
 
@@ -446,20 +447,22 @@ theorem link_covers_keyword_counterexample :
     (documentLinks Fixes.pinned doc j).map (fun x => slice doc (toN x)) = [some "include other.journal".toList] := by
   decide
 
-/-- Completion as pinned: on `account a:b` with the cursor at 0:0 the edit range is 0:8–0:0;
-    on `    a:b  1    USD` with the cursor at character 11 it is 0:14–0:11 (start after end). -/
+/-- Completion before upstream a42bf24 (`HL.Completion.editRange false` is the completion
+    builder's transcription of that code): on `account a:b` with the cursor at 0:0 the edit
+    range is 8–0; on `    a:b  1    USD` with the cursor at character 11 it is 14–11. -/
 theorem completion_start_after_cursor_counterexample :
-    (textEditRange Fixes.pinned "account a:b".toList ⟨0, 0⟩ 1).map toN = some ⟨0, 8, 0, 0⟩ ∧
-    (textEditRange Fixes.pinned "    a:b  1    USD".toList ⟨0, 11⟩ 3).map toN = some ⟨0, 14, 0, 11⟩ ∧
+    HL.Completion.editRange false .account "account a:b".toList 0 = some (8, 0) ∧
+    HL.Completion.editRange false .commodity "    a:b  1    USD".toList 11 = some (14, 11) ∧
     rangeOK "account a:b".toList ⟨0, 8, 0, 0⟩ = false := by decide
 
-/-- Completion with repo_patches/fix-completion-edit-start.diff: for EVERY document, every
-    cursor that is a position of the document and every completion context, the edit range
-    lies in the cursor's line, starts on a code-point boundary at or before the cursor and
-    ends at the cursor (full theorem, no guard on the text). -/
-theorem completion_edit_rangeOK (fx : Fixes) (hfx : fx.clamp = true) (doc : Txt) (c : Cur) (ctx : Nat)
+/-- Completion (current code): for EVERY document, every cursor that is a position of the
+    document and every completion context, the edit range lies in the cursor's line, starts
+    on a code-point boundary at or before the cursor and ends at the cursor (full theorem, no
+    guard on the text).  The bound `start ≤ cursor` is the completion builder's
+    `HL.Completion.editStart_query`. -/
+theorem completion_edit_rangeOK (doc : Txt) (c : Cur) (ctx : Nat)
     (r : LRange) (hc : posOK doc c.line c.char = true) (h1 : c.line < 4294967296)
-    (h2 : c.char < 4294967296) (h : textEditRange fx doc c ctx = some r) :
+    (h2 : c.char < 4294967296) (h : textEditRange doc c ctx = some r) :
     rangeOK doc (toN r) = true := by
   unfold posOK at hc
   rw [docLines_get] at hc
@@ -476,21 +479,36 @@ theorem completion_edit_rangeOK (fx : Fixes) (hfx : fx.clamp = true) (doc : Txt)
         rw [hsuf]; exact takeU16_of_charsOf suf hk
       have hk'len := charsOf_some_le hk
       have hu := charsOf_u16_spec hk
-      simp only [Option.map_eq_some_iff] at h
-      obtain ⟨st, _, hr⟩ := h
-      simp only [hfx, if_true, hkk] at hr
+      have hkline : k' ≤ line.length := by
+        have := congrArg List.length hsuf
+        simp at this; omega
+      simp only [HL.Completion.editRange, Option.map_map, Option.map_eq_some_iff, hkk] at h
+      obtain ⟨st, hst0, hr⟩ := h
+      simp only [Function.comp] at hr
       subst hr
-      -- the start index and what it denotes
-      have hst : min st k' ≤ (stripCR line).length := by omega
-      have htake : line.take (min st k') = (stripCR line).take (min st k') := by
-        rw [hsuf, List.take_append_of_le_length hst]
-        have : stripCR (stripCR line ++ suf) = stripCR line := by rw [← hsuf]
-        rw [this]
-      have hle : u16len ((stripCR line).take (min st k')) ≤ c.char := by
-        rw [← hu]; exact u16len_take_mono _ (by omega) hk'len
+      -- start ≤ cursor
+      have hle0 : st ≤ k' := by
+        have hctx : ctxOf ctx = .account ∨ ctxOf ctx = .payee ∨ ctxOf ctx = .commodity := by
+          cases hcx : ctxOf ctx with
+          | account => exact Or.inl rfl
+          | payee => exact Or.inr (Or.inl rfl)
+          | commodity => exact Or.inr (Or.inr rfl)
+          | unknown => rw [hcx] at hst0; simp [HL.Completion.editStart] at hst0
+          | tagName => rw [hcx] at hst0; simp [HL.Completion.editStart] at hst0
+          | tagValue => rw [hcx] at hst0; simp [HL.Completion.editStart] at hst0
+          | date => rw [hcx] at hst0; simp [HL.Completion.editStart] at hst0
+        obtain ⟨s', hs', hle, _⟩ := HL.Completion.editStart_query (ctxOf ctx) line k' hkline hctx
+        rw [hst0] at hs'
+        simp at hs'; omega
+      have hst : st ≤ (stripCR line).length := by omega
+      have htake : line.take st = (stripCR line).take st := by
+        have e : line.take st = (stripCR line ++ suf).take st := by rw [← hsuf]
+        rw [e, List.take_append_of_le_length hst]
+      have hle : u16len ((stripCR line).take st) ≤ c.char := by
+        rw [← hu]; exact u16len_take_mono _ hle0 hk'len
       have e1 : (UInt32.ofNat c.line).toNat = c.line := by rw [UInt32.toNat_ofNat']; omega
       have e2 : (UInt32.ofNat c.char).toNat = c.char := by rw [UInt32.toNat_ofNat']; omega
-      have e3 : (UInt32.ofNat (u16len (line.take (min st k')))).toNat = u16len ((stripCR line).take (min st k')) := by
+      have e3 : (UInt32.ofNat (u16len (line.take st))).toNat = u16len ((stripCR line).take st) := by
         rw [UInt32.toNat_ofNat', htake]; omega
       simp only [rangeOK, toN, e1, e2, e3, Bool.and_eq_true]
       refine ⟨⟨?_, ?_⟩, ?_⟩
@@ -502,11 +520,11 @@ theorem completion_edit_rangeOK (fx : Fixes) (hfx : fx.clamp = true) (doc : Txt)
       · simp only [leqPos, Bool.or_eq_true, Bool.and_eq_true, decide_eq_true_eq, beq_self_eq_true, true_and]
         right; exact hle
 
-/-- Non-vacuity and the repaired behaviour on the two witnesses of the pinned defect. -/
+/-- Non-vacuity and the current behaviour on the two witnesses of the old defect. -/
 example :
-    (textEditRange Fixes.all "account a:b".toList ⟨0, 0⟩ 1).map toN = some ⟨0, 0, 0, 0⟩ ∧
-    (textEditRange Fixes.all "    a:b  1    USD".toList ⟨0, 11⟩ 3).map toN = some ⟨0, 11, 0, 11⟩ ∧
-    (textEditRange Fixes.all "    ассеts:b😀  1".toList ⟨0, 14⟩ 1).map toN = some ⟨0, 4, 0, 14⟩ := by decide
+    (textEditRange "account a:b".toList ⟨0, 0⟩ 1).map toN = some ⟨0, 0, 0, 0⟩ ∧
+    (textEditRange "    a:b  1    USD".toList ⟨0, 11⟩ 3).map toN = some ⟨0, 11, 0, 11⟩ ∧
+    (textEditRange "    ассеts:b😀  1".toList ⟨0, 14⟩ 1).map toN = some ⟨0, 4, 0, 14⟩ := by decide
 
 /-- Folding ranges: every region is a line interval `start < end` of the document, for every
     document (directive and comment regions, computed from the text, need no hypothesis;
